@@ -194,9 +194,9 @@ prop(
 prop(
     "C11",
     ["LolHtml.Thm.C11"],
-    [{"lane": "lex", "n_quick": 2000, "n_thorough": 50000},
+    [{"lane": "fault", "n_quick": 4000, "n_thorough": 100000},
      {"lane": "proto", "n_quick": 5000, "n_thorough": 100000, "impl_only": True}],
-    LEX_RULE + "; lane proto (implementation only): public HtmlRewriter in all 36 encodings with end / bail-out content, token mutations with empty strings, a failure injected at handler invocation index 1..11 or by memory limit, graceful flags on/off, preallocation sizes, cuts anywhere: byte preservation and bail-out handler count",
+    LEX_RULE + "; lane fault = lane lex plus a handler failure injected at token index 1..8, graceful flags, memory limit and preallocation sweeps (model vs real TransformStream); lane proto (implementation only): public HtmlRewriter in all 36 encodings with end / bail-out content, token mutations with empty strings, a failure injected at handler invocation index 1..11 or by memory limit, graceful flags on/off, preallocation sizes, cuts anywhere: byte preservation and bail-out handler count",
     ["proved for observing controllers (handlers that inspect and may FAIL at any invocation but do not mutate); rewritten tokens / removed content / partly emitted text nodes (the property's documented exceptions) are exercised by lanes only",
      "an end-handler failure happens after every received byte was emitted; the bail-out handlers are not run then (as coded and as the repository's own test expects)",
      MODEL_SCOPE],
@@ -214,9 +214,9 @@ prop(
 prop(
     "C12",
     ["LolHtml.Thm.C12"],
-    [{"lane": "lex", "n_quick": 2000, "n_thorough": 50000},
+    [{"lane": "fault", "n_quick": 4000, "n_thorough": 100000},
      {"lane": "proto", "n_quick": 5000, "n_thorough": 100000, "impl_only": True}],
-    LEX_RULE + "; lane proto (implementation only): as for C11, checking the sink-call log against the protocol automaton (encoding first, zero-length chunk exactly once and last on success, never on failure, use after error panics silently)",
+    LEX_RULE + "; lane fault = lane lex plus injected failures and memory limits; lane proto (implementation only): as for C11, checking the sink-call log against the protocol automaton (encoding first, zero-length chunk exactly once and last on success, never on failure, use after error panics silently)",
     ["content written by end / bail-out handlers goes through the text encoder and is never an empty slice (CleanEnds; the encoder fact is C13_encoder)",
      "'prefix of the failure-free run' is proved only as monotonicity of the sink log (C12_monotone); the comparison of two runs is checked by lanes",
      MODEL_SCOPE],
